@@ -11,7 +11,7 @@ import (
 
 func init() {
 	register(&Rule{ID: "R-arm-typecheck", Floor: 6, Run: ruleArmTypecheck,
-		Doc: "in the analyzer functions that build a match / if / try / list-literal node, every analysed alternative (arm action, then/else block, try/catch block, list element — identified by the syntax node it was analysed from) that is kept in the result (address stored, appended, or placed in the returned node; scrutinee/condition/literal fields excluded) is, on every path and by the end of the loop iteration that analysed it, unified with the other alternatives: its type is an argument of a TypeCheck call or seeds the result-type variable. Necessary for C02/C03: an alternative that skips the unification can have any type while the construct is given the type of the others, and the engines' unchecked value assertions then panic."})
+		Doc: "in the analyzer functions that build a match / if / try / list-literal node, every analysed alternative (arm action, then/else block, try/catch block, list element — identified by the syntax node it was analysed from) that is kept in the result (address stored, appended, or placed in the returned node; scrutinee/condition/literal fields excluded) is, on every path and by the end of the loop iteration that analysed it, unified with the other alternatives: its type is an argument of a TypeCheck call — or of a helper of the package that unconditionally hands that parameter to TypeCheck — or seeds the result-type variable. Necessary for C02/C03: an alternative that skips the unification can have any type while the construct is given the type of the others, and the engines' unchecked value assertions then panic."})
 }
 
 var actxArmNodeTypes = []string{"AnalyzedMatchExpression", "AnalyzedIfExpression", "AnalyzedTryExpression", "AnalyzedListLiteralExpression"}
@@ -65,6 +65,60 @@ func ruleArmTypecheck(c *Ctx) []Obligation {
 	if typeCheck == nil {
 		fatalf("anchor unresolved: analyzer.Analyzer.TypeCheck")
 	}
+	// helpers that unify on behalf of their caller: parameter i of f reaches, unconditionally (in a
+	// straight-line top-level statement of f, or the initialiser / condition of a top-level if), an
+	// argument of TypeCheck — or of another such helper
+	checkers := map[*types.Func]map[int]bool{}
+	for round := 0; round < 3; round++ {
+		for _, fd := range AllFuncDecls(p) {
+			fn, _ := info.Defs[fd.Name].(*types.Func)
+			if fn == nil || fn == typeCheck {
+				continue
+			}
+			sig := fn.Type().(*types.Signature)
+			paramIdx := func(e ast.Expr) []int {
+				var out []int
+				ast.Inspect(e, func(n ast.Node) bool {
+					if id, ok := n.(*ast.Ident); ok {
+						for i := 0; i < sig.Params().Len(); i++ {
+							if info.Uses[id] == sig.Params().At(i) {
+								out = append(out, i)
+							}
+						}
+					}
+					return true
+				})
+				return out
+			}
+			heads := actxAlwaysExecuted(fd.Body, true)
+			for _, h := range heads {
+				ast.Inspect(h, func(n ast.Node) bool {
+					if _, isLit := n.(*ast.FuncLit); isLit {
+						return false
+					}
+					ce, ok := n.(*ast.CallExpr)
+					if !ok {
+						return true
+					}
+					g := CalleeOf(info, ce)
+					if g == nil {
+						return true
+					}
+					for ai, a := range ce.Args {
+						if g == typeCheck || checkers[g][ai] {
+							for _, pi := range paramIdx(a) {
+								if checkers[fn] == nil {
+									checkers[fn] = map[int]bool{}
+								}
+								checkers[fn][pi] = true
+							}
+						}
+					}
+					return true
+				})
+			}
+		}
+	}
 	var out []Obligation
 	found := map[string]bool{}
 	for _, fd := range AllFuncDecls(p) {
@@ -112,7 +166,13 @@ func ruleArmTypecheck(c *Ctx) []Obligation {
 			return key, key != ""
 		}
 		check := func(st *actxArmState, where string) {
-			for k, pos := range st.kept {
+			var keptKeys []string
+			for k := range st.kept {
+				keptKeys = append(keptKeys, k)
+			}
+			sort.Strings(keptKeys)
+			for _, k := range keptKeys {
+				pos := st.kept[k]
 				if !st.checked[k] {
 					viols = append(viols, viol{k, pos, where + " [" + strings.Join(st.dec, ", ") + "]"})
 				}
@@ -128,8 +188,17 @@ func ruleArmTypecheck(c *Ctx) []Obligation {
 				case *ast.FuncLit:
 					return false
 				case *ast.CallExpr:
-					if CalleeOf(info, x) == typeCheck {
+					if g := CalleeOf(info, x); g == typeCheck {
 						for _, a := range x.Args {
+							if k, ok := rootOf(st, a); ok {
+								st.checked[k] = true
+							}
+						}
+					} else if g != nil && checkers[g] != nil {
+						for ai, a := range x.Args {
+							if !checkers[g][ai] {
+								continue
+							}
 							if k, ok := rootOf(st, a); ok {
 								st.checked[k] = true
 							}
@@ -294,4 +363,55 @@ func actxArmKeep(info *types.Info, st *actxArmState, e ast.Expr, pos token.Pos, 
 		return true
 	}
 	ast.Inspect(e, visit)
+}
+
+// actxAlwaysExecuted: the parts of a function body that every activation
+// executes: the straight-line top-level statements (and, withConds, the
+// initialiser and condition of top-level ifs) up to the first statement that
+// may leave the function early (a compound statement containing return /
+// panic / a jump) or loop.
+func actxAlwaysExecuted(body *ast.BlockStmt, withConds bool) []ast.Node {
+	var out []ast.Node
+	mayLeave := func(n ast.Node) bool {
+		leaves := false
+		ast.Inspect(n, func(x ast.Node) bool {
+			switch y := x.(type) {
+			case *ast.FuncLit:
+				return false
+			case *ast.ReturnStmt, *ast.BranchStmt:
+				leaves = true
+			case *ast.CallExpr:
+				if id, ok := y.Fun.(*ast.Ident); ok && id.Name == "panic" {
+					leaves = true
+				}
+			}
+			return !leaves
+		})
+		return leaves
+	}
+	for _, st := range body.List {
+		switch x := st.(type) {
+		case *ast.AssignStmt, *ast.ExprStmt, *ast.DeclStmt, *ast.IncDecStmt:
+			out = append(out, st)
+		case *ast.ReturnStmt:
+			out = append(out, st)
+			return out
+		case *ast.IfStmt:
+			if withConds {
+				if x.Init != nil {
+					out = append(out, x.Init)
+				}
+				out = append(out, x.Cond)
+			}
+			if mayLeave(x) {
+				return out
+			}
+		case *ast.DeferStmt:
+		default:
+			if mayLeave(st) {
+				return out
+			}
+		}
+	}
+	return out
 }
